@@ -130,6 +130,9 @@ func hostileHandle(raw []byte) map[string]interface{} {
 			if pc.Path == "compiled-bg" {
 				ctx = context.Background() // never cancellable: only for programs that end by themselves
 			}
+			if pc.Path == "compiled-cancelled" {
+				cancel() // the context is done before the call: the call must come back at once, whatever the script would do
+			}
 			e := c.RunContext(ctx)
 			if e != nil {
 				if errors.Is(e, context.DeadlineExceeded) {
@@ -162,6 +165,25 @@ func hostileHandle(raw []byte) map[string]interface{} {
 	out["getall"] = guarded(func() error {
 		for _, v := range c.GetAll() {
 			names = append(names, v.Name())
+		}
+		return nil
+	})
+	// the Variables handed out by GetAll are used directly (type, text, typed accessors), also for globals the aborted run never reached
+	out["getall_use"] = guarded(func() error {
+		for _, v := range c.GetAll() {
+			_ = v.ValueType()
+			_ = v.IsUndefined()
+			if v.Object() == nil {
+				return fmt.Errorf("GetAll handed out a Variable without an object: %s", v.Name())
+			}
+			if hasCycle(v.Object()) {
+				continue
+			}
+			_ = v.String()
+			_ = v.Value()
+			_, _, _, _ = v.Int(), v.Float(), v.Bool(), v.Char()
+			_, _, _ = v.Array(), v.Map(), v.Bytes()
+			_ = v.Error()
 		}
 		return nil
 	})
